@@ -1,6 +1,6 @@
 (* C16 — Names survive the string-to-UUID mapping unchanged and unaliased. *)
 From Coq Require Import List NArith.
-From Keto Require Import Base.Bytes Api.Codec Store.Sql Store.SqlProofs Store.Mapping Store.Spec Store.MappingProofs.
+From Keto Require Import Base.Bytes Api.Codec Store.Sql Store.SqlProofs Store.Mapping Store.Spec Store.MappingProofs Store.ApiProofs.
 Import ListNotations.
 
 Theorem C16_injective : forall n s n' s', uuid5 n s = uuid5 n' s' <-> n = n' /\ s = s'.
@@ -31,3 +31,8 @@ Theorem C16_tree_shape : forall names d t a, ToTree names d t = ROk a -> ashape 
 Proof. exact ToTree_shape. Qed.
 Theorem C16_tree_rejects : forall names d t e, ToTree names d t = RErr e -> e = E_NotFound.
 Proof. exact ToTree_rejects. Qed.
+(* queries (Mapper.FromQuery): a list / delete query by names selects exactly the stored rows that carry those names in
+   those fields - object, subject id, subject-set object - whatever other strings share a prefix, a case or a UUID shape *)
+Theorem C16_query_by_name : forall names nid q iq r,
+  FromQuery names nid q = ROk iq -> row_wf r -> r_nid r = nid -> matches_q iq r = matches_api q (row_api r).
+Proof. exact FromQuery_matches. Qed.
